@@ -477,7 +477,8 @@ class Fn:
         if self._defs is None:
             d = defaultdict(list)
             for s in self.stmts():
-                if s.place is not None:
+                if s.place is not None and not any(pr[0] == "d" for pr in s.place.proj):
+                    # a store through `*p` writes the pointee, it does not define `p`
                     d[s.place.local].append(("stmt", s))
             for c in self.calls:
                 if c.dest is not None:
@@ -509,26 +510,51 @@ class Fn:
     def backward_sources(self, local, max_depth=40, through_calls=()):
         """Transitively collect the def sites feeding `local` (through copies, moves, refs,
         casts, field projections, aggregates; through calls whose callee matches any
-        pattern in `through_calls`, or all calls if through_calls == '*')."""
+        pattern in `through_calls`, or all calls if through_calls == '*').
+        Field-sensitive for aggregates: reading `_x.k` where `_x = (a, b, ..)` follows only
+        operand k."""
+        seen = set()
         seen_locals = set()
         sites = []
-        work = [(local, 0)]
+        work = [(local, None, 0)]
         while work:
-            l, d = work.pop()
-            if l in seen_locals or d > max_depth:
+            l, fi, d = work.pop()
+            if (l, fi) in seen or d > max_depth:
                 continue
+            seen.add((l, fi))
             seen_locals.add(l)
             for kind, site in self.defs().get(l, []):
-                sites.append((kind, site))
                 if kind == "stmt":
+                    if fi is not None and site.rv_kind() == "agg" and not site.place.proj and site.rv[1].get("k") in ("tuple", "adt"):
+                        ops = site.operands()
+                        if fi < len(ops):
+                            sites.append((kind, site))
+                            o = ops[fi]
+                            if o.place is not None:
+                                work.append(self._src_key(o.place, d))
+                            continue
+                    if fi is not None and site.place.proj and site.place.proj[0][0] == "f" and site.place.proj[0][1] != fi:
+                        continue  # partial def of another field
+                    sites.append((kind, site))
                     for p in site.src_places():
-                        work.append((p.local, d + 1))
+                        work.append(self._src_key(p, d))
                 else:
+                    sites.append((kind, site))
                     if through_calls == "*" or site.is_(*through_calls):
                         for a in site.args:
                             if a.place is not None:
-                                work.append((a.place.local, d + 1))
+                                work.append(self._src_key(a.place, d))
         return seen_locals, sites
+
+    @staticmethod
+    def _src_key(p, d):
+        for pr in p.proj:
+            if pr[0] == "f":
+                return (p.local, pr[1], d + 1)
+            if pr[0] in ("d", "v"):
+                continue
+            break
+        return (p.local, None, d + 1)
 
     def forward_aliases(self, local, through_calls=(), max_iter=60):
         """Locals that (transitively) receive the value of `local` through plain
